@@ -373,7 +373,8 @@ theorem chain_batches (env : Env B H) (attach : Message B H → Option Nat) (hat
       exact Chain.cons hr hnx this
 
 /-- the item count of a `Headers` frame: two bytes are pulled, the state becomes `BlockHeaders` -/
-theorem readLoop_count (env : Env B H) (fuel : Nat) (L n : Nat) (rest : Bytes) (hL : 2 ≤ L) (hn : n < 2^16) (br al : Nat) :
+theorem readLoop_count (env : Env B H) (fuel : Nat) (L n : Nat) (rest : Bytes) (hL : 2 ≤ L) (hn : n < 2^16)
+    (hne : ¬ (n = 0 ∧ L - 2 = 0)) (br al : Nat) :
     readLoop env flatOps (fuel + 1) { buffer := [], state := .header (.known T_Headers L) } (writeU16 n ++ rest) br al =
       readLoop env flatOps fuel { buffer := [], state := .blockHeaders (L - 2) n [] } rest (br + 2)
         (al + 2 + min HEADER_BATCH_SIZE n * env.hdrMem) := by
@@ -389,8 +390,30 @@ theorem readLoop_count (env : Env B H) (fuel : Nat) (L n : Nat) (rest : Bytes) (
     have ht : (writeU16 n).take 2 = writeU16 n := by rw [← h2]; exact List.take_length
     have hd : (writeU16 n).drop 2 = [] := by rw [← h2]; exact List.drop_length
     have hL' : ¬ L < 2 := by omega
-    simp only [stepState, h2, Nat.lt_irrefl, if_false, if_true, ht, hd, hr, hL']
+    simp only [stepState, h2, Nat.lt_irrefl, if_false, if_true, ht, hd, hr, hL', hne]
   have := readLoop_inr env flatOps fuel { buffer := [], state := .header (.known T_Headers L) } _ _ _ _ br al _
+    (by rw [hnl]; simpa using hf) (by rw [hnl]; simpa using hs)
+  rw [this, hnl]; rfl
+
+/-- the item count 0 of a `Headers` frame of length 2 (an empty list, since /repo 11bd5ac16): two bytes
+are pulled, an empty batch is returned, the codec is idle again -/
+theorem readLoop_count_empty (env : Env B H) (fuel : Nat) (rest : Bytes) (br al : Nat) :
+    readLoop env flatOps (fuel + 1) { buffer := [], state := .header (.known T_Headers 2) } (writeU16 0 ++ rest) br al =
+      { res := .msg (.headers [] 0), bytesRead := br + 2, alloc := al + 2 + 0, codec := idle, sock := rest } := by
+  have hnl : nextLen env (State.header (.known T_Headers 2) : State H) = 2 := by
+    simp only [nextLen, if_true, HEADERS_COUNT_LEN]; omega
+  have hf := fill_flat (H := H) (.header (.known T_Headers 2)) [] (writeU16 0) rest 2 (by simp [writeU16])
+  have hr : readU16 (writeU16 0) = .ok (0, []) := by
+    have := readU16_write 0 (by decide) []
+    rwa [List.append_nil] at this
+  have hs : stepState env ({ buffer := writeU16 0, state := .header (.known T_Headers 2) } : Codec H) 2 =
+      .inl (.msg (.headers [] 0), idle, 0) := by
+    have h2 : (writeU16 0).length = 2 := rfl
+    have ht : (writeU16 0).take 2 = writeU16 0 := by rw [← h2]; exact List.take_length
+    have hd : (writeU16 0).drop 2 = [] := by rw [← h2]; exact List.drop_length
+    simp only [stepState, h2, Nat.lt_irrefl, if_false, if_true, ht, hd, hr]
+    rfl
+  have := readLoop_inl env flatOps fuel { buffer := [], state := .header (.known T_Headers 2) } _ _ _ _ br al _ _
     (by rw [hnl]; simpa using hf) (by rw [hnl]; simpa using hs)
   rw [this, hnl]; rfl
 
@@ -443,9 +466,32 @@ theorem chain_headers (env : Env B H) (attach : Message B H → Option Nat) (hat
     (items : List (H × Bytes)) (hwf : SentWF env attach (.headers items)) :
     Chain env attach idle (encodeSent env.net (Sent.headers (B := B) items) ++ rest)
       (expected (Sent.headers (B := B) items)) idle rest := by
-  obtain ⟨hne, hn16, hmax, h64, hit⟩ := hwf
+  obtain ⟨hn16, hmax, h64, hit⟩ := hwf
   have hbl : (headersBody items).length = 2 + (itemBytes items).length := by
     simp [headersBody, itemBytes, writeU16]; omega
+  by_cases hne : items = []
+  · -- the empty list: one read returns the empty batch
+    subst hne
+    have hdec0 : decHeader env.net (encHeader env.net T_Headers 2) = .ok (.known T_Headers 2) [] 0 := by
+      have := decHeader_encHeader env.net T_Headers 2 (by decide) []
+      rw [List.append_nil] at this
+      have h2 : ¬ 2 > maxLen env.net T_Headers := by
+        have : (headersBody ([] : List (H × Bytes))).length = 2 := rfl
+        omega
+      rw [this, if_neg h2, if_pos isKnown_headers]
+    have hs0 : encodeSent env.net (Sent.headers (B := B) ([] : List (H × Bytes))) ++ rest =
+        encHeader env.net T_Headers 2 ++ (writeU16 0 ++ rest) := by
+      simp [encodeSent, writeMessage, headersBody, writeU16]
+    have e1 := readLoop_header_ok env (34 + 1) (encHeader env.net T_Headers 2) (writeU16 0 ++ rest)
+      (encHeader_length _ _ _) 0 0 _ _ _ hdec0
+    have e2 := readLoop_count_empty env 34 rest (0 + 11) (0 + 11 + 0)
+    have hr : ReadsTo env idle (encodeSent env.net (Sent.headers (B := B) ([] : List (H × Bytes))) ++ rest)
+        (.headers [] 0) idle rest := by
+      unfold ReadsTo read
+      rw [READ_FUEL_eq, hs0, e1, e2]
+      exact ⟨rfl, rfl, rfl⟩
+    have := Chain.single hr (nextCodec_none (attach := attach) idle _ (hat.2.1 [] 0))
+    simpa [expected] using this
   have hdec : decHeader env.net (encHeader env.net T_Headers (headersBody items).length) =
       .ok (.known T_Headers (headersBody items).length) [] 0 := by
     have := decHeader_encHeader env.net T_Headers (headersBody items).length h64 []
@@ -456,8 +502,9 @@ theorem chain_headers (env : Env B H) (attach : Message B H → Option Nat) (hat
     simp [encodeSent, writeMessage, headersBody, itemBytes]
   have e1 := readLoop_header_ok env (34 + 1) (encHeader env.net T_Headers (headersBody items).length)
     (writeU16 items.length ++ (itemBytes items ++ rest)) (encHeader_length _ _ _) 0 0 _ _ _ hdec
+  have hlen0 : items.length ≠ 0 := fun h => hne (List.eq_nil_of_length_eq_zero h)
   have e2 := readLoop_count env 34 (headersBody items).length items.length (itemBytes items ++ rest)
-    (by omega) hn16 (0 + 11) (0 + 11 + 0)
+    (by omega) hn16 (fun h => hlen0 h.1) (0 + 11) (0 + 11 + 0)
   have hst : ({ buffer := [], state := .blockHeaders ((headersBody items).length - 2) items.length [] } : Codec H) =
       hdrState items [] 0 := by
     simp only [hdrState, List.take_zero]
@@ -475,7 +522,8 @@ theorem chain_headers (env : Env B H) (attach : Message B H → Option Nat) (hat
     rw [READ_FUEL_eq, hstream, e1, e2, hst, q3]
     exact ⟨rfl, rfl, rfl⟩
   have := chain_from_first env attach hat rest idle _ items p' hne hit (by omega) q1 q2 hr
-  simpa [expected] using this
+  have hie : items.isEmpty = false := by cases items <;> simp_all
+  simpa [expected, hie] using this
 
 
 /-- every well-formed sent message is read back as exactly its expected events, and leaves the codec idle -/
